@@ -1013,9 +1013,8 @@ def value_attr(I, obj, name):
         if name in ("real", "imag"):
             part = sp.re if name == "real" else sp.im
 
-            def parts(v):
-                return Vec((parts(x) for x in v.items), v.col) if isinstance(v, Vec) else part(to_expr(v))
-            return parts(obj)
+            from .symval import ViewVec
+            return ViewVec(obj, lambda x: part(to_expr(x)), obj.col)
         if name == "T":
             return obj
     if isinstance(obj, SigVal):
@@ -2199,6 +2198,10 @@ def _numpy_more(I, name):
                 if isinstance(out, Vec) and isinstance(r, Vec) and len(out) == len(r):
                     out.items[:] = r.items
                     return out
+                if not isinstance(out, Vec) and not isinstance(r, Vec) and _alg(out):
+                    # a 0-d buffer (the shape of an array *symbol* is modelled as ()): the value is the result; buffer identity
+                    # is only modelled for explicit vectors
+                    return r
                 raise AnalysisError("numpy ufunc with out= of another shape")
             return r
         return ufunc
